@@ -16,6 +16,7 @@ class Check:
     assumptions = []
     exhaustive = {}
     env_warnings_as_errors = False  # a sixth of the runs execute with warnings turned into errors (simulation checks opt in)
+    library_exception_is_violation = False  # an exception escaping execute() from inside the library's code is reported as <pid>.library-call-raised
 
     def preload(self):
         """import the library modules used (template process: imports only, no calls)"""
